@@ -9,6 +9,7 @@ CONSTANTS
   Deliveries <- MC_Deliveries
   Payloads <- MC_Payloads
   Keys <- MC_Keys
+  Deviations = {}
   Small = FALSE
 INIT Init
 NEXT Next
@@ -19,4 +20,3 @@ INVARIANTS
   C04_Untouched
   C04_Conforming
   C04_NonNegative
-  Dump
